@@ -10,7 +10,7 @@
  D2 (inventory) every iteration over a HashMap/HashSet in a function reachable from the ABCI
     handlers is in the triaged table (with the reason it is order-insensitive, or the
     sort that follows it is checked); clocks/randomness on that path are listed.
- D3 (K3a) matches over ExecutionState are exhaustive without a wildcard.
+ D3 (inventory, observation only) matches over ExecutionState and whether they use a wildcard.
  D4 (K2) cached results are only read on the fingerprint-matched path.
 Not decided: equality of responses / app hashes as values for all blocks.
 """
@@ -260,11 +260,15 @@ def d3(prog, rep):
         for b in prog.bodies_of(o):
             for (bb, ty, vals, wildcard, line) in enum_switches(b, prog, r"execution_state::ExecutionState$"):
                 n += 1
-                # a wildcard is acceptable only if it is an error/false arm: we require none
-                rep.check(not wildcard or len(vals) == nvar, "D3", f"exhaustive:{short_name(o)}:{line}",
-                          f"{o}: match over ExecutionState has a wildcard arm covering "
-                          f"{nvar - len(vals)} variants: a new state would silently take it",
-                          f"{b.file}:{line}")
+                # Observation only: a wildcard arm is a maintenance hazard (a new state would
+                # silently take it) but it is not a violation of the property - rewriting
+                # explicit no-op arms as `_ => {}` leaves behaviour unchanged - so it is
+                # recorded, never reported.
+                if wildcard and len(vals) != nvar:
+                    rep.note(f"D3: {o} L{line}: match over ExecutionState has a wildcard arm "
+                             f"covering {nvar - len(vals)} variants")
+                rep.ok("D3", rep.nth(f"inventoried:{short_name(o)}"),
+                       f"{len(vals)} explicit arms{' + wildcard' if wildcard else ''}")
     rep.floor("D3", n, 3, "matches over ExecutionState")
 
 
